@@ -3,6 +3,7 @@ interpolation of constants."""
 import json
 import math
 import os
+import random
 import sys
 import time
 from fractions import Fraction as Fr
@@ -61,7 +62,10 @@ META = {
                   "numpy types of the returned numbers and containers, dense or sparse storage of results, warnings and log "
                   "output; last-bit float differences (house tolerance 1e-9(1+|x|), vectors relative to their size); how results "
                   "are cached (a call that recomputes instead of reusing a cache is always right). Nothing is compared with a "
-                  "pristine run: only with the independent oracle and the Coq model.",
+                  "pristine run: only with the independent oracle and the Coq model. Stale-cache findings: no `fix:` was made - "
+                  "mouette has no hook on vertex writes, so the only small patch (consumers stop reading persistent attributes) "
+                  "removes a documented feature; the 16 narrow keys stay. Every run also carries 3 (thorough 24) families at "
+                  "scales 2^-23 and 2^130 with every scale-sensitive call (absolute epsilons hidden in a formula).",
 }
 
 HEADER = """From Coq Require Import ZArith List Bool.
@@ -1132,6 +1136,31 @@ def run(ctx):
                       "meta": {"kind": "nonconvex", "family": "nonconvex-%d" % nid, "variant": "renumber", "renumber": ren}}]
         fam_index.append((len(cases), len(fam)))
         cases += fam
+    # extreme-magnitude stream (own random stream: the draws above are unchanged): every scale-sensitive quantity on the
+    # SAME mesh at 2^-23 and 2^130 - an absolute epsilon hidden in a formula (|N| + 1e-12, a fixed cut-off) shows here
+    n_ext = 3 if quick else 24
+    xr = random.Random(repr((ctx.seed, "C07", "extreme")))
+    for xid in range(n_ext):
+        kind, V, F = G.gen_surface(xr, xr.choice(["tiny", "medium"]))
+        pdx = lambda: [xr.random() < 0.5, xr.random() < 0.5]  # noqa: E731
+        script = [["face_normals"] + pdx(), ["face_area"] + pdx(), ["edge_length"] + pdx(), ["face_bary"] + pdx(),
+                  ["total_area"], ["mean_edge", None], ["bary"]]
+        script += [["vnormals", w] + pdx() for w in ("uniform", "area", "angle")]
+        if kind == "tri":
+            script += [["angles"] + pdx(), ["circum"] + pdx()]
+        xr.shuffle(script)
+        Vx = [[Fr(x) for x in q] for q in V]
+        fam = [{"V": floats_of(Vx), "F": F, "C": None, "script": script,
+                "meta": {"kind": kind, "family": "extreme-%d" % xid, "variant": "base"}}]
+        I3 = [[Fr(int(i == j)) for j in range(3)] for i in range(3)]
+        for sc_ in (Fr(1, 2 ** 23), Fr(2 ** 130)):
+            trf = {"kind": "scale", "scale": sc_, "R": I3, "t": [Fr(0)] * 3}
+            fam.append({"V": floats_of(G.apply_transform(trf, V)), "F": F, "C": None, "script": script,
+                        "meta": {"kind": kind, "family": "extreme-%d" % xid, "variant": "scale",
+                                 "transform": {"kind": "scale", "scale": str(sc_), "R": [[str(x) for x in r] for r in I3],
+                                               "t": ["0", "0", "0"]}}})
+        fam_index.append((len(cases), len(fam)))
+        cases += fam
     n_rep = 30 if quick else 250
     for rid in range(n_rep):
         kind, V, F, C, script = G.gen_repeat(ctx.rng)
@@ -1142,8 +1171,8 @@ def run(ctx):
         kind, V, F, C, script = G.gen_scenario(ctx.rng)
         cases.append({"V": [[float(x) for x in p] for p in V], "F": F, "C": C, "script": script,
                       "meta": {"kind": kind, "family": "scenario-%d" % sid, "variant": "scenario"}})
-    ctx.log("generated %d cases in %d families + %d non-convex families + %d repeated-call scripts + %d move scenarios"
-            % (len(cases), n_fam, n_nc, n_rep, n_scen))
+    ctx.log("generated %d cases in %d families + %d non-convex families + %d extreme-scale families + %d repeated-call scripts "
+            "+ %d move scenarios" % (len(cases), n_fam, n_nc, n_ext, n_rep, n_scen))
     outs = run_driver(cases, timeout=900 if quick else 3000)
     ctx.log("implementation ran")
 
